@@ -8,6 +8,10 @@ NOTE_COMMON = ("Trusted base: go/packages + go/types + go/ssa of golang.org/x/to
                "so a large refactoring can raise an alarm although behaviour is preserved.")
 
 claimed = {
+ "C06": dict(
+   text="Decides the specification-table and shape clauses of the Type 1 reader: opcode constants, handler exhaustiveness with error default, per-command operand counts demanded before operands are read, stack clearing, operand→relative move/line/curve mapping of the eight path commands, flex protocol (reset, record, seven points, two curves from points 1..6, moves only record), callothersubr/pop argument transfer, callsubr index check and unconditional depth-limited frame push, charstring decryption key/data flow/lenIV skip and guard, defaults (BlueScale, BlueShift, BlueFuzz, lenIV, FontMatrix), seac through StandardEncoding with range checks, own copy of base commands, translation of every accent coordinate, exhaustive GlyphOp switches and literal arities, .notdef substitution, 0x80 container test. Does not decide equality of outlines/values with the described font nor the side-bearing points where readings of the book differ.",
+   technique="static analysis: AST/type-info table extraction compared with Adobe Type 1 tables carried in the checker, canonical symbolic terms for the cipher, go/ssa dominance for range checks and aliasing",
+   ref="DESIGN.md §5 C06"),
  "C20": dict(
    text="Decides the structural clauses of number fidelity: the integer encoder is evaluated from the source for every integer in [-70000,70000], all format boundaries, powers of two ±3 and the int32 extremes, and each output is decoded both by the Type 1 number grammar and by the repository's own decoder branches to the same integer, in the proper 1/2/2/5-byte format; decoder ranges 32–246/247–250/251–254/255 equal the book for all first bytes; fraction encoder: integer path, denominators exactly 1..107, int32 clamp, `p q div` order, returned p/q of the same p,q; decoder div operand order; no narrowing below 32 bits on the way to the encoder; position tracking adds exactly the returned deltas once per axis. The 1/214 bound and absence of drift as numbers are not decided.",
    technique="static analysis: abstract integer evaluation of encoder and decoder formulas extracted from the type-checked AST (sibling round trip + specification grammar), canonical symbolic terms, AST def-use rule for position tracking, SSA backward slice for narrowing",
